@@ -37,7 +37,40 @@ NEEDS = {
  "C16-A": "the same multi-character module passed as a plain string to two layers",
  "C16-B": "a module and its own sub module in one containing_modules([...]) list",
  "C17-A": "two aliased modules, one an ancestor of the other, plus a module strictly below the inner one",
- "C17-B": "level_limit + alias for a module deeper than the limit",
+ "C17-B": "level_limit + alias for a module deeper than the limit", "C01-C": "ONE Rule object with a regex specification applied to two architectures whose matching modules differ (matcher kept, regex resolved once)",
+ "C01-D": "should/should_only rule whose importee-side batch contains a module and one of its descendants (extra de-duplication in get_dependencies)",
+ "C02-C": "one absolute from-import listing a scanned sub module BEFORE a non-module name (from proj.b import helpers, CONSTANT)",
+ "C02-D": "two scans in one process + a module that was imported before and contains a relative import (lru_cache + in-place append)",
+ "C03-C": "ONE Rule object with a regex specification applied to two architectures; offending imports of newly matching modules missing from the report",
+ "C03-D": "have_name_containing with a partial name containing a dot / regex metacharacter (conversion without escaping)",
+ "C04-C": "two sibling modules where one name is a raw prefix of the other, the shorter used via are_sub_modules_of / as a named module",
+ "C04-D": "a directory below module_path that holds no .py file of its own (only sub packages or data)",
+ "C05-C": "ONE LayerRule object with regex-defined layers applied to two architectures (layer mapping resolved once)",
+ "C05-D": "one are_named([...]) call mixing a regex-defined and a name-defined object layer",
+ "C06-C": "a component with an 'as' alias that is mentioned in brackets without the alias EARLIER in the file, alias used in an arrow",
+ "C06-D": "an arrow end point that is a dotted name with three or more segments",
+ "C07-C": "with_base_module(p) and a component whose own name equals p or starts with 'p.' (package nested in a package of the same name)",
+ "C07-D": "default mode + a component with arrows importing a non-component module whose name merely starts with the component's name",
+ "C08-C": "exclusions + exclude_external_libraries=False + a remaining module importing the excluded module",
+ "C08-D": "a glob exclusion with a * that is neither the first nor the last character",
+ "C09-C": "two level-limited architectures with different effective limits built in one process (class-level memo of flattened names)",
+ "C09-D": "level_limit + two modules at the limit level where one name is a raw prefix of the other, import from the shorter to the longer",
+ "C10-C": "two get_evaluable_architecture calls in one process with different external exclusion patterns (class-level memo)",
+ "C10-D": "a module importing the scanned base package itself; configurations with and without externals compared",
+ "C11-C": "deprecated have_name_containing with a LIST containing one entry that matches nothing and one that matches",
+ "C11-D": "ONE Rule object with have_name_matching applied to two architectures where the regex matches different modules",
+ "C12-C": "a regex subject whose matches are nested (a package and modules below it) + except / should_only forms: decomposition law",
+ "C12-D": "a re-used Rule object with a pattern compared with a freshly built dual rule on a second architecture",
+ "C13-C": "absent name on the importee side of a plain should/should_not rule whose importer has no import at all (lazy lookup)",
+ "C13-D": "both exclusions and regex_exclusions given, the partial-match tuple equal to the default",
+ "C14-C": "import-direction 'something else' rule whose object name starts with the subject's name without being its sub module",
+ "C14-D": "a module passed as a plain STRING to containing_modules whose name contains an earlier layer's module name as a substring",
+ "C15-C": "regex_exclusions with >= 2 patterns, one using a numbered back-reference listed after a pattern with a capture group",
+ "C15-D": "objects given as are_sub_modules_of([pkg, pkg.sub]) in a 'something else' rule; result depends on PYTHONHASHSEED (fused loops over a set)",
+ "C16-C": "rule objects named as a single layer, then are_named called again on the same rule (architecture's own list shared and extended)",
+ "C16-D": "containing_modules([]) followed by layer(...): the empty list must keep the layer open",
+ "C17-C": "module_path strictly below root_path: ancestors that the parser did not report get no label / cannot be aliased",
+ "C17-D": "two visualize calls on one architecture with the same aliased modules but different alias texts (label cache keyed by module names)",
 }
 only = sys.argv[1:]
 for d in sorted(os.listdir(os.path.join(V, "seeded"))):
